@@ -218,7 +218,12 @@ where
                             continue;
                         }
                     }
-                    self.last_accepted_stream = Some(s.send_id());
+                    // Streams can become visible out of stream id order: the GOAWAY identifier is
+                    // derived from the highest id handed out, not from the most recent one.
+                    self.last_accepted_stream = Some(
+                        self.last_accepted_stream
+                            .map_or(s.send_id(), |last| last.max(s.send_id())),
+                    );
                     self.ongoing_streams.insert(s.send_id());
                     Poll::Ready(Ok(Some(s)))
                 }
